@@ -277,6 +277,11 @@ func parseVpsSpsPpsAnnexbFromRecord(payload []byte) (vps, sps, pps []byte, err e
 			end = len(payload) - i
 		}
 		nal := payload[i+4 : i+end]
+		if len(nal) == 0 {
+			// 两个起始码紧挨着，中间没有nal数据，跳过
+			i += end
+			continue
+		}
 		typ := ParseNaluType(nal[0])
 		switch typ {
 		case NaluTypeVps:
